@@ -62,3 +62,43 @@ Example C12_static_nonvacuous :
   existsb (fun s => mem (cs_callee s) lockers) gen_calls = true /\
   existsb (fun s => String.eqb upd_locker (cs_callee s)) gen_calls = true.
 Proof. vm_compute. repeat split. Qed.
+
+(* ---------- the two mutexes made explicit (LockSem.v): any number of threads, any calls, any schedule ----------
+   Each thread issues any sequence of calls, each call from whatever world it finds; its lock/network actions
+   are those the model computes (the traces compared with the real library's hook trace on every run).  The
+   config mutex blocks, the update mutex is only tried.  After ANY schedule prefix:
+   (1) if some thread still has work, some thread can take a step - no deadlock, whatever the order of calls;
+   (2) the remaining work can be completed in at most [sys_work] further steps - every step consumes an action,
+       so no schedule runs for ever and nobody waits behind a thread that is itself waiting. *)
+From UV Require Import LockSem LockSemProofs LockSemLink.
+Theorem C12_no_deadlock_any_schedule :
+  forall sha sigok zdec base (threads : list (list (world * op))) (order : list nat),
+    let s := run_sched (system_of sha sigok zdec base threads) order in
+    ((exists i t, nth_error (LockSem.threads s) i = Some t /\ th_done t = false) ->
+     exists i, sys_step s i <> None) /\
+    (exists rest, (List.length rest <= sys_work s)%nat /\ all_done (run_sched s rest)).
+Proof. exact no_deadlock_any_schedule. Qed.
+Print Assumptions C12_no_deadlock_any_schedule.
+
+(* a try-lock on the update mutex never waits: busy or not, the step is enabled and the caller moves on at
+   once - into the update body if it got the mutex, past it ("already in progress") if not *)
+Theorem C12_try_never_blocks :
+  forall i t body r co uo,
+    inside t = None -> rest t = IUpd body :: r ->
+    exists t', th_step i t co uo = Some (t', co, match uo with None => Some i | Some k => Some k end) /\
+               rest t' = r /\
+               inside t' = match uo with None => Some body | Some _ => None end.
+Proof. exact try_never_blocks. Qed.
+Print Assumptions C12_try_never_blocks.
+
+(* non-vacuity: an update racing a query and a launch report; the query thread wants the config mutex while the
+   updater holds it and is passed over (a skipped pick), then everything completes *)
+Example C12_lock_example :
+  let upd := [IUpd [AAcq; ARel; ANet; AAcq; ARel]] in
+  let qry := [IAct AAcq; IAct ARel] in
+  let s1 := run_sched (init_sys [upd; qry; upd]) [0; 0; 1; 2]%nat in
+  cfg_owner s1 = Some 0%nat /\ upd_owner s1 = Some 0%nat /\
+  sys_step s1 1%nat = None /\                      (* the query waits for the config mutex ... *)
+  sys_step s1 0%nat <> None /\                     (* ... whose holder can go on *)
+  forallb th_done (LockSem.threads (run_sched s1 [0; 1; 1; 0; 0; 0; 0; 2]%nat)) = true.
+Proof. cbv zeta. vm_compute. repeat split; discriminate. Qed.
